@@ -54,7 +54,8 @@ ASSUMPTIONS = [
 REQUIRED = ["trees_measured_from_inside_a_traversal", "trees", "length_checked", "branch_features_checked", "path_features_checked",
             "node_features_checked", "counts_checked", "branch_order_checked", "sholl_intersect_checked",
             "sholl_get_checked", "sholl_exact_threshold_radii", "sholl_fixed_step_checked",
-            "sholl_summaries_checked", "lmeasure_tree_checked",
+            "sholl_summaries_checked", "trees_measured_under_custom_column_names",
+            "densely_sampled_long_trees", "lmeasure_tree_checked",
             "lmeasure_node_checked", "lmeasure_bif_checked", "lmeasure_branch_checked",
             "frontend_tree_checked", "frontend_population_checked", "population_padding_checked",
             "frontend_requeried", "feature_queries_in_random_order",
@@ -388,6 +389,12 @@ def exec_tree(ctx, case):
                                f"morphometrics asked for from the callbacks of a traversal of "
                                f"another tree: {prob}")
         check_tree(ctx, case, tree, spec, ref, soma_ok)
+        if case["seed"] % 4 == 2 and 3 <= n <= 150 and type(tree).__name__ == "Tree":
+            # the same neuron held under custom column names (`names=`): the same measurements
+            r = G.same_under_renaming(_feature_bundle, tree, level=case["seed"] // 4 % 2)
+            ctx.count("trees_measured_under_custom_column_names")
+            if r:
+                raise Mismatch("custom-column-names", f"morphometrics: {r}")
     except Mismatch as m:
         ctx.violation(m.mech, m.detail + f" | n={n}, shape={case['tree']['shape']}, geom="
                                          f"{case['tree']['geom']}", case)
@@ -481,11 +488,58 @@ def exec_population(ctx, case):
         ctx.violation(m.mech, m.detail, case)
 
 
+def _feature_bundle(t):
+    """A cross-section of the measurements as plain data (for the custom-names comparison)."""
+    from swcgeom.analysis import Sholl, extract_feature
+    from swcgeom.analysis.lmeasure import LMeasure
+
+    fe = extract_feature(t)
+    out = {k: np.asarray(fe.get(k)) for k in ("length", "branch_length", "path_length",
+                                              "branch_tortuosity", "node_branch_order",
+                                              "tip_count", "furcation_count")}
+    out["tree_length"] = float(t.length())
+    sh = Sholl(t)
+    radii = np.linspace(0, float(sh.rmax), 9)[1:-1]
+    out["sholl"], out["rmax"] = np.asarray(sh.get(steps=radii)), float(sh.rmax)
+    out["sholl_frontend"] = np.asarray(fe.get("sholl", steps=radii))
+    lm = LMeasure()
+    out["lm"] = [lm.n_tips(t), lm.n_bifs(t), lm.n_branch(t)]
+    out["lm_nodes"] = [[float(lm.path_distance(t.node(i))), float(lm.euc_distance(t.node(i))),
+                        int(lm.branch_order(t.node(i)))] for i in range(0, t.number_of_nodes(), 3)]
+    return out
+
+
+def exec_dense(ctx, case):
+    """A long, finely sampled process: tens of thousands of equal short compartments (what a
+    small fixed resampling step gives). The length is the sum of the compartment lengths whatever
+    their number."""
+    from swcgeom.analysis import extract_feature
+    from swcgeom.core import Tree
+
+    n, step = case["n"], case["step"]
+    x = (np.arange(n) * step).astype(np.float32)
+    t = Tree(n, pid=np.arange(-1, n - 1, dtype=np.int32), x=x,
+             y=(np.arange(n) % 2 * np.float32(step / 3)).astype(np.float32))
+    X = np.stack([t.x(), t.y(), t.z()], axis=1).astype(np.float64)
+    want = float(np.linalg.norm(X[1:] - X[:-1], axis=1).sum())
+    ctx.count("densely_sampled_long_trees")
+    for name, got in (("Tree.length", t.length()),
+                      ("extract_feature(...).get('length')", float(np.asarray(
+                          extract_feature(t).get("length")).ravel()[0]))):
+        if abs(float(got) - want) > 2e-5 * want:
+            return ctx.violation("length", f"{name} of {n - 1} compartments of about {step} each = "
+                                           f"{float(got)!r}, their summed length is {want!r} "
+                                           f"(relative difference {abs(float(got) - want) / want:.2e})",
+                                 case)
+
+
 def execute(ctx, case):
     try:
         with warnings.catch_warnings():
             warnings.simplefilter("ignore")
-            if case["kind"] == "tree":
+            if case["kind"] == "dense":
+                exec_dense(ctx, case)
+            elif case["kind"] == "tree":
                 exec_tree(ctx, case)
             else:
                 exec_population(ctx, case)
@@ -529,6 +583,11 @@ def run(ctx):
             case = {"kind": "tree", "tree": rc, "seed": 500 + j}
             ctx.case(case, klass="size-sweep")
             ctx.count("size_sweep_cases")
+            execute(ctx, case)
+        if ctx.shard == 2 % ctx.nshards:
+            case = {"kind": "dense", "n": 40001 if ctx.quick else 150001,
+                    "step": float(rng.choice([0.013, 0.0081, 0.3]))}
+            ctx.case(case, klass="dense-chain")
             execute(ctx, case)
         for j, rc in enumerate(G.real_recipes(rng, 1000 if ctx.quick else None)):
             if j % ctx.nshards == ctx.shard:
